@@ -4,6 +4,7 @@ import (
 	"go/ast"
 	"go/token"
 	"go/types"
+	"strings"
 
 	"golang.org/x/tools/go/cfg"
 )
@@ -298,3 +299,81 @@ func init() {
 }
 
 var _ = cfg.KindBody
+
+func init() {
+	register(&Rule{ID: "LOC.synthesized-calls", Floor: 3,
+		Doc: "a special operator that builds a call form in Go and hands it to the evaluator (env.Eval / env.Terminal of an SExpr(...) it constructed) first gives that form the source location of the user-written form it stands for (`x.source = <form>.source`): eval sets the current location from the form it is given, so a form without one makes the callee's errors and frame point at <native code> or at an unrelated enclosing call",
+		Run: func(c *Ctx) []Obligation {
+			sexpr := c.LookupPkgFunc("lisp.SExpr")
+			srcFld := c.LookupField("lisp.LVal.source")
+			if sexpr == nil || srcFld == nil {
+				return []Obligation{anchorMissing("LOC.synthesized-calls", "lisp.SExpr / LVal.source")}
+			}
+			var obs []Obligation
+			for _, e := range c.Registry() {
+				if rel(e.Pkg.PkgPath) != "lisp" || e.Kind != "op" {
+					continue
+				}
+				body, u, _, ok := c.BodyOf(e)
+				if !ok || u.Decl == nil {
+					continue
+				}
+				info := u.Pkg.TypesInfo
+				ord := &ordinal{}
+				// locals defined by SExpr(...) and those that got a source
+				synth := map[types.Object]bool{}
+				sourced := map[types.Object]bool{}
+				ast.Inspect(body, func(n ast.Node) bool {
+					as, ok := n.(*ast.AssignStmt)
+					if !ok || len(as.Lhs) != len(as.Rhs) {
+						return true
+					}
+					for i, l := range as.Lhs {
+						if ce, ok := ast.Unparen(as.Rhs[i]).(*ast.CallExpr); ok && originOf(Callee(info, ce)) == sexpr {
+							if o := identObj(info, l); o != nil {
+								synth[o] = true
+							}
+						}
+						if se, ok := ast.Unparen(l).(*ast.SelectorExpr); ok && FieldOfSelector(info, se) == srcFld {
+							if o := identObj(info, se.X); o != nil {
+								// the value must come from another node's source
+								if FieldOfSelector(info, as.Rhs[i]) == srcFld {
+									sourced[o] = true
+								}
+							}
+						}
+					}
+					return true
+				})
+				ast.Inspect(body, func(n ast.Node) bool {
+					ce, ok := n.(*ast.CallExpr)
+					if !ok || len(ce.Args) != 1 {
+						return true
+					}
+					se, ok := ast.Unparen(ce.Fun).(*ast.SelectorExpr)
+					if !ok || (se.Sel.Name != "Eval" && se.Sel.Name != "Terminal") {
+						return true
+					}
+					if tv, ok := info.Types[se.X]; !ok || !strings.HasSuffix(tv.Type.String(), "lisp.LEnv") {
+						return true
+					}
+					arg := ast.Unparen(ce.Args[0])
+					if inner, ok := arg.(*ast.CallExpr); ok && originOf(Callee(info, inner)) == sexpr {
+						obs = append(obs, mkOb(c, "LOC.synthesized-calls", u, ord.next(se.Sel.Name+" of a synthesized form"), ce, Violated,
+							"`"+types.ExprString(ce)+"` evaluates a form built here that has no source location: errors raised by the call, and its frame, are reported at <native code> or at an unrelated enclosing call", true))
+						return true
+					}
+					if o := identObj(info, arg); o != nil && synth[o] {
+						construct := ord.next(se.Sel.Name + " of a synthesized form")
+						if sourced[o] {
+							obs = append(obs, mkOb(c, "LOC.synthesized-calls", u, construct, ce, Proved, "`"+o.Name()+"` was given the source of the form it stands for", true))
+						} else {
+							obs = append(obs, mkOb(c, "LOC.synthesized-calls", u, construct, ce, Violated, "`"+o.Name()+"` is built by SExpr(...) and evaluated without a source location", true))
+						}
+					}
+					return true
+				})
+			}
+			return obs
+		}})
+}
